@@ -1,12 +1,12 @@
 SPECIFICATION Spec
 CONSTANTS
   MaxH = 2
-  MaxRestarts = 2
+  MaxRestarts = 1
   FullNode = FALSE
   Cap = 2
   Weaken = "none"
-  Direct = TRUE
-  Timeouts = TRUE
+  Direct = FALSE
+  Timeouts = FALSE
 INVARIANT ContainerOK
 INVARIANT TopIsHeight
 INVARIANT StorageShape
@@ -15,5 +15,5 @@ PROPERTY NoRerun
 PROPERTY NoRerunCtl
 PROPERTY HeightMonotone
 PROPERTY HighestMonotone
-PROPERTY HistMonotone
+PROPERTY HistMonotoneExceptRerun
 VIEW view
